@@ -346,10 +346,13 @@ func (c *Conn) SetDeadline(t time.Time) error {
 }
 
 func (c *Conn) SetReadDeadline(t time.Time) error {
+	// a schedule point: clearing a deadline is what a connection's new owner does when it takes over (a hand-over between
+	// goroutines), and a read loop re-arms its deadline once per round — a loop that has stopped consuming input still
+	// lets every other task run, so the scenario ends with a verdict instead of a spinning worker process
 	if t.IsZero() {
-		// clearing a deadline is what a connection's new owner does when it takes over (a hand-over between goroutines):
-		// a schedule point, so that the other side of the hand-over may run first
 		c.yield("conn.cleardeadline")
+	} else {
+		c.yield("conn.setdeadline")
 	}
 	c.dmu.Lock()
 	c.rdl = t
